@@ -346,13 +346,15 @@ def c13(tapes, params):
     w.gen_tags(ntags=g.between(1, 3, 'ntags'), maxlen=params.get('maxlen', 30), types=[t for t in
                ['INT', 'DINT', 'REAL', 'UINT', 'LINT', 'SINT', 'SSTRING', 'UDINT', 'LREAL']], min_storages=1)
     w.start_server()
-    mode = params.get('mode') or g.weighted([(3, 'pipeline'), (2, 'synchronous'), (2, 'proxy')], 'mode')
+    mode = g.weighted([(3, 'pipeline'), (2, 'synchronous'), (2, 'proxy')], 'mode')
+    mode = params.get('mode') or mode
     nops = g.between(2, params.get('max_ops', 12), 'nops')
     depth = g.between(1, 8, 'depth')
     multiple = g.choice([0, 0, 250, 500], 'multiple')
     tmo = g.choice([1.0, 5.0, 0.5], 'timeout')
     # fault plan for the client's connections (connection index >= 1: index 0 is the boot session)
-    kind = params.get('kind') or g.weighted([(3, 'FIN'), (3, 'RST'), (2, 'STALL'), (2, 'DROP'), (1, 'C2S'), (1, 'SLOW'), (1, 'NONE')], 'fkind')
+    kind = g.weighted([(3, 'FIN'), (3, 'RST'), (2, 'STALL'), (2, 'DROP'), (1, 'C2S'), (1, 'SLOW'), (1, 'NONE')], 'fkind')
+    kind = params.get('kind') or kind
     cut = params.get('cut')
     stats = {'mode': mode, 'kind': kind, 'results': 0, 'raised': None, 'complete': False, 'cut': None, 'reply_len': 0,
              'polls_ok': 0, 'polls_failed': 0, 'recovered': None}
